@@ -458,6 +458,61 @@ def shape_cases(ctx, it):
         ctx.violation(f"shape:{fact}:decision", f"num_outputs={lift + 1}: implementation raised={raised}, model status={status}, shapeOk={exp}", case)
 
 
+def pytree_cases(ctx, it):
+    """pytree-valued ODE states: the acceptance quantity of a problem whose state is a dict of two arrays equals the one
+    of the same problem with a flat state (whose value is compared with the model elsewhere): the contraction rate is the
+    number of Taylor coefficients - not of array leaves - and the reference is a Taylor coefficient - not an array leaf."""
+    import jax.numpy as jnp
+    from probdiffeq import probdiffeq as pdq
+
+    rng = ctx.rng
+    fact = ["iso", "bd", "dense"][it % 3]
+    d, q = 3, int(rng.integers(2, 4))
+    field = problems.random_field(rng, d, 1, max_degree=2)
+    f = field.as_jax()
+    u0 = 0.25 + 0.5 * np.abs(gen.dyadic(rng, (d,), bits=3, scale=1.0)) * np.array([1.0, 8.0, 0.125])  # components of different magnitude
+    ssm = {"dense": pdq.state_space_model_dense, "iso": pdq.state_space_model_isotropic, "bd": pdq.state_space_model_blockdiag}[fact]()
+
+    def to_tree(x):
+        return {"a": x[:1], "b": x[1:]}
+
+    def from_tree(tr):
+        return jnp.concatenate([tr["a"], tr["b"]])
+
+    dt = float_dt(rng, -3, -1)
+    atol, rtol = tolerances(rng)
+    out = {}
+    for kind in ("flat", "tree"):
+        if kind == "flat":
+            vf = pdq.ode(lambda u, /, *, t: f(u, t=t), jacobian=pdq.jacobian_materialize())
+            init = jnp.asarray(u0)
+        else:
+            vf = pdq.ode(lambda u, /, *, t: to_tree(f(from_tree(u), t=t)), jacobian=pdq.jacobian_materialize())
+            init = to_tree(jnp.asarray(u0))
+        tcoeffs, _ = pdq.jetexpand_ode_padded_scan(num=q)(vf, (init,), t=jnp.asarray(0.0))
+        prior = ssm.prior_wiener_integrated(tcoeffs)
+        lin = gen.pick(rng, ["ts0", "ts1"]) if kind == "flat" else lin
+        con = ssm.constraint_ode_ts0(vf) if lin == "ts0" else ssm.constraint_ode_ts1(vf)
+        solver = pdq.solver(strategy=pdq.strategy_filter(), constraint=con)
+        st0 = solver.init(jnp.asarray(0.0), prior, damp=0.0)
+        st1 = solver.step(st0, dt=jnp.asarray(dt), damp=0.0)
+        st2 = solver.step(st1, dt=jnp.asarray(dt), damp=0.0)
+        vals = []
+        for e in (ECfg(est="residual", norm="scale_then_rms", relin=False, per_unit=False), ECfg(est="residual", norm="rms_then_scale", relin=True, per_unit=True),
+                  ECfg(est="state", norm="scale_then_rms", relin=False, per_unit=False, idx=0), ECfg(est="state", norm="rms_then_scale", relin=False, per_unit=True, idx=1)):
+            err = make_error(con, e)
+            pw, _ = err.estimate_error_norm(err.init_error(), st1, st2, dt=jnp.asarray(dt), atol=atol, rtol=rtol, damp=0.0)
+            vals.append((e.key(), float(pw)))
+        out[kind] = vals
+    case = {"kind": "pytree-vs-flat", "fact": fact, "q": q, "lin": lin, "field": field.describe(), "u0": u0.tolist(), "dt": dt, "atol": atol, "rtol": rtol, "structure": "{'a': (1,), 'b': (2,)}"}
+    for (k, a), (_, b) in zip(out["flat"], out["tree"]):
+        dev = abs(a - b) / max(abs(a), 1e-300)
+        ctx.dev("pytree.error_power", dev, 1e-12, case=dict(case, estimator=k), sig=f"pytree:{fact}:{k['est']}",
+                what=f"error_power for a dict-valued state ({b!r}) differs from the flat-state value ({a!r}) by {dev:.2e}")
+    ctx.count("pytree-vs-flat estimator calls")
+    ctx.case(dict(kind="pytree", fact=fact, q=q, lin=lin, dt=dt), nontrivial=True)
+
+
 def corpus():
     """fixed minimal cases (one per estimator x factorisation), replayed first"""
     out = []
@@ -494,6 +549,8 @@ def run(ctx):
         "cases whose float result is not determined by the data (cancellation factor >= 1e6: residual much smaller than its summands, posterior variance much smaller than the prior variance) are skipped and counted",
     ]
     run_corpus(ctx)
+    for it in range(ctx.n(3, 30)):
+        pytree_cases(ctx, it)
     n = ctx.n(12, 300)
     per = ctx.n(6, 8)
     reps = ctx.n(2, 3)
